@@ -143,6 +143,50 @@ KF_PERSIST = {"KF-L2-upgrade-supersede-swallowed", "KF-L2-rollback-supersede-swa
               "KF-L1-replace-keeps-older-deployed"}
 
 
+def _match_one(m, o):
+    """Python mirror of HelmProps!MatchOne, used ONLY to decide which listed finding (if any) explains a
+    violation that TLC already reported; never to produce a verdict"""
+    if o is None:
+        return False
+    return ((m["f1"] == "-" or o["f1"] == m["f1"]) and (m["f2"] == "-" or o["f2"] == m["f2"])
+            and (m["pol"] == "none" or o["pol"] == m["pol"]) and o["own"] == "me")
+
+
+def mismatching(man, cluster):
+    return {r for r, m in man.items() if not _match_one(m, cluster.get(r))}
+
+
+def explains(kf, name, evs, b, e):
+    """does the listed finding kf, triggered in the operation evs[b..e], explain violation `name` there?
+    Findings whose trigger is broad get a second, specific condition on the offending objects."""
+    be, en = evs[b], evs[e]
+    pre, post = be["state"], en["state"]
+    fl = be["flags"]
+    if kf == "KF-L6-unstructured-two-way-merge":
+        if fl.get("takeOwnership"):
+            return False          # --take-ownership merges three-way (kube.Client.UpdateThreeWayMerge)
+        if not post["store"]:
+            return False
+        top = post["store"][str(max(int(k) for k in post["store"]))]
+        bad = mismatching(top["man"], post["cluster"])
+        # only custom-kind objects that already existed when the operation began may be off
+        return bool(bad) and all(is_custom(top["man"][r]["kind"]) and r in pre["cluster"] for r in bad)
+    if kf == "KF-L7-uninstall-skips-other-policy-values":
+        last = pre["store"][str(max(int(k) for k in pre["store"]))]
+        left = {r for r, m in last["man"].items() if m["pol"] != "keep" and r in post["cluster"]}
+        return bool(left) and all(last["man"][r]["pol"] == "other" for r in left)
+    if kf == "KF-L4-atomic-rollback-fails-no-resource-found":
+        return "with the name" in en.get("err", "") and "found" in en.get("err", "")
+    if kf == "KF-L5-obsolete-resource-errors-swallowed":
+        lib = vlib.CHARTS.get(be.get("chart", ""), {"res": {}, "hooks": {}})
+        new_ids = set(lib["res"]) if be["op"] != "rollback" else set()
+        injs = [x for x in evs[b:e + 1] if x["ev"] == "call" and x["inj"]]
+        # the rejected call addressed an object that is not part of the new manifest (obsolete resource)
+        return all(x["kind"] == "res" and x["verb"] in ("GET", "DELETE") and (be["op"] == "rollback" or x["id"] not in new_ids)
+                   for x in injs)
+    return True
+
+
 def classify(viol, evs, listed):
     """returns the id of the listed known finding that explains this violation, or None"""
     name, sid, line, ev = viol
@@ -156,8 +200,8 @@ def classify(viol, evs, listed):
             return kf
         # otherwise the violation must lie within the triggering operation
         for b, e in ops:
-            if b == start or e == start:
-                if b <= line <= e:
+            if (b == start or e == start) and b <= line <= e:
+                if explains(kf, name, evs, b, e):
                     return kf
     return None
 
